@@ -494,6 +494,10 @@ def api_calls(ctx):
             calls.append(Call(cls_site + ".inverse_transform", layout, fault, expect, (lambda sc=sc: model.inverse_transform(sc)),
                               "code (inverse_outcome %d %s)" % (k, coq_scores(sc)),
                               detail="%s fitted on <%s>; inverse_transform(<%s>)" % (name, layout, fault)))
+            # the same faults with normalized=True: the norms are looked up for the modes the scores name
+            calls.append(Call(cls_site + ".inverse_transform", layout + ",normalized", fault, expect, (lambda sc=sc: model.inverse_transform(sc, normalized=True)),
+                              "code (inverse_outcome %d %s)" % (k, coq_scores(sc)),
+                              detail="%s fitted on <%s>; inverse_transform(<%s>, normalized=True)" % (name, layout, fault)))
 
     single("EOF(n_modes=2)", "DataArray", lambda: xe.single.EOF(n_modes=2), X, {}, "EOF")
     single("EOF(n_modes=2, center=False)", "DataArray,center=False", lambda: xe.single.EOF(n_modes=2, center=False), X, dict(center=False), "EOF")
